@@ -18,6 +18,12 @@ import (
 
 // DerivePublic takes private key and return the X and Y coordinates of the corresponding public key.
 func DerivePublic(priv []byte) (x, y []byte, err error) {
+	test := TestPrivateKey(priv)
+	if test != 0 {
+		err = fmt.Errorf("invalid private key, reason code: %d.", test)
+		return
+	}
+
 	var pub *internal.SM2Point
 	pub, err = internal.ScalarBaseMult(priv)
 	if err != nil {
